@@ -72,7 +72,7 @@ static const cfg_t cfgs[] = {
       SM_MAIN, B_MUTEX, U2_NONE, R_ES2, J_FREE },
     { "BASIC/FIFO main: U1 migrate-to-R + suspend, ULT@ES2 resumes; free", 0,
       S_B, PK_FIFO, SM_MAIN, B_MIGSUSPEND, U2_YIELD, R_ES2, J_FREE },
-    { "BASIC_WAIT/FIFO_WAIT main: U1 suspend, X resumes; join", 0, S_W,
+    { "BASIC_WAIT/FIFO_WAIT main: U1 suspend, X resumes; join", 1, S_W,
       PK_FIFO_WAIT, SM_MAIN, B_SUSPEND, U2_NONE, R_EXT, J_JOIN },
     { "BASIC_WAIT/FIFO main: U1 eventual, U2 yield, X sets; free", 0, S_W,
       PK_FIFO, SM_MAIN, B_EVENTUAL, U2_YIELD, R_EXT, J_FREE },
